@@ -2,6 +2,7 @@
 package props
 
 import (
+	"bytes"
 	"encoding/hex"
 	"io"
 	"math/big"
@@ -166,4 +167,24 @@ func smallValue(r *core.Rand) *big.Int {
 		v.SetInt64(1)
 	}
 	return v
+}
+
+// sm2Canon runs a fixed sequence of SM2 calls on fresh buffers: one signature with a
+// full-width key on a fixed stream, its verification, one key generation and one curve
+// check. Executed at the start of every run of the SM2 checks, it puts whatever the
+// library may remember across calls (a pooled scratch buffer, a last-key cache) into the
+// same state each time, so that a run depends only on its script and replays exactly,
+// and so that state left behind by ordinary traffic is always present.
+func sm2Canon() {
+	core.Catch(func() {
+		d := unhx("3945208f7b2144b13f36e38ac6d39f95889393692860b51a42fb81ef4df7c5b8")
+		k := unhx("59276e27d506861a16680f3ad9c02dccef3cc1fa3cdbe4ce6d54b80deac1bc21")
+		e := unhx("f0b43e94ba45accaace692ed534382eb17e6ab5a19ce7b31f4486fdfc0d28640")
+		r, s, _ := sm2.SignHashed(bytes.NewReader(k), d, e)
+		px := unhx("09f9df311e5421a150dd7d161e4bc5c672179fad1833fc076bb08ff356f35020")
+		py := unhx("ccea490ce26775a52dc6ea718cc1aa600aed05fbf35e084a6632f6072da9ad13")
+		sm2.VerifyHashed(px, py, e, r, s)
+		sm2.CheckOnCurve(px, py)
+		sm2.GenerateKey(bytes.NewReader(k))
+	})
 }
